@@ -59,7 +59,7 @@ fn effects(w: &World, obs: &Obs, pool: &str, ask: &str, receiver: &Addr, lp: &st
     Effects {
         reserves: p.info.asset_denoms.iter().map(|d| (d.clone(), p.reserve(d))).collect(),
         supply: p.supply,
-        fee_collector: obs.bal.get(w.fc.as_str()).cloned().unwrap_or_default(),
+        fee_collector: obs.bal.get(obs.pm_fc.as_str()).cloned().unwrap_or_default(),
         ask_total: w.supply(ask),
         receiver_lp: obs.bal(receiver, lp),
         positions: all_positions(w),
